@@ -18,8 +18,9 @@ lines = ["# Seeded changes and the checks that catch them", "",
          "in a fresh worktree with tools/confirm_mutant.sh (demo passes on the clean tree, patch applies, the repository's tests keep",
          "their baseline result, demo fails with the patch) and then run against the check of its property with tools/matrix.sh",
          "(VERIF_REPO pointing at a scratch worktree with the patch applied; /repo itself is never touched).",
-         "Rounds 1-4 were last run on the tree with the first four fix: commits (seeded/rounds1-4-matrix.txt); every change whose patch had to be",
-         "re-based after a later fix: commit, and all of rounds 5 and 6, were run again with the final checks on the final tree.", "",
+         "All 238 changes were run with the final checks on the final tree (six fix: commits): seeded/final-matrix-rounds1-4.txt,",
+         "seeded/final-matrix-rounds5-6-and-rebased.txt, seeded/final-matrix-reruns.txt (changes that a first pass of the final run missed or",
+         "that ended in an infrastructure failure, after the extension they prompted). First-run results of rounds 5 and 6: round5/6-first-run.txt.", "",
          "| id | property | needs (from the author's meta.json, shortened) | check | exit | violations |", "|---|---|---|---|---|---|"]
 for d in sorted(glob.glob(os.path.join(ROOT, "seeded", "C*"))):
     sid = os.path.basename(d)
